@@ -95,9 +95,23 @@ def run_stog(c):
         judge(c, lst, res, "create_stog")
     else:
         area = float(sum(w * h for _, _, w, h in cs))
-        doc = {"Modules": {"M": {"area": area, "rectangles": [[X.num(x), X.num(y), X.num(w), X.num(h)] for x, y, w, h in cs]},
-                           "T": {"area": 1, "rectangles": [[1000.5, 1000.5, 1, 1]]}},
-               "Nets": [["M", "T"]]}
+        # the other modules of the netlist, listed before and after M: with rectangles, without any (area only, area + centre),
+        # terminals, hard modules - recognition of M must not depend on what is listed around it
+        OTHER = {"soft-rect": {"area": 1, "rectangles": [[1000.5, 1000.5, 1, 1]]}, "soft-area": {"area": 2.5},
+                 "soft-centre": {"area": 4, "center": [3.5, 2.5]}, "terminal": {"terminal": True, "center": [0.5, 7]},
+                 "hard": {"hard": True, "rectangles": [[2000.5, 1000.5, 2, 1], [2000.5, 1001.5, 1, 1]]}}
+        mods = {}
+        others = c.get("others") or [[], ["soft-rect"]]
+        for k, kind in enumerate(others[0]):
+            mods["B%d" % k] = dict(OTHER[kind])
+        mods["M"] = {"area": area, "rectangles": [[X.num(x), X.num(y), X.num(w), X.num(h)] for x, y, w, h in cs]}
+        for k, kind in enumerate(others[1]):
+            mods["T" if k == 0 else "A%d" % k] = dict(OTHER[kind])
+        names = list(mods)
+        doc = {"Modules": mods, "Nets": [names[:2]] if len(names) >= 2 else []}
+        rectless = any(kind in ("soft-area", "soft-centre", "terminal") for side in others for kind in side)
+        if any(kind in ("soft-area", "soft-centre", "terminal") for kind in others[0]):
+            cls.append("module-without-rectangles-listed-before")
         try:
             nl = Netlist(doc)
         except Exception as e:
@@ -135,7 +149,13 @@ def run_stog(c):
                 if min(r2[0] + r2[2], r2[1] + r2[3]) >= 0:
                     rects2[k] = r2
                     cx, cy, w, h = L.csr(r2, c["unit"])
-                    objs[k].center = Point(X.num(cx), X.num(cy))
+                    if len(ed) == 6 and ed[4] == "inplace":
+                        # the way FRAME itself moves rectangles (Module.recenter_rectangles, the flip code of glbfloor)
+                        objs[k].center.x = X.num(cx)
+                        objs[k].center.y = X.num(cy)
+                        cls.append("moved-through-the-point-object")
+                    else:
+                        objs[k].center = Point(X.num(cx), X.num(cy))
                     fl[k] = X.rect_cs(X.num(cx), X.num(cy), X.num(w), X.num(h))
             else:
                 r2 = ed[1]
@@ -147,12 +167,12 @@ def run_stog(c):
                 fl = fl + [X.of_frame(newr)]
             c2 = dict(c, rects=rects2, _objs=objs, _float_exact=fl)
             via = ed[-1]
-            if via == "netlist":
+            if via == "netlist" and not rectless:
                 nl.create_stogs()
                 res3 = m.has_stog
             else:
                 res3 = m.create_stog()
-            judge(c2, m.rectangles, res3 if via != "netlist" else m.has_stog, "recognition after editing the rectangles in place (%s)" % via)
+            judge(c2, m.rectangles, res3 if via != "netlist" or rectless else m.has_stog, "recognition after editing the rectangles in place (%s)" % via)
             cls.append("edited-then-recognised-again")
     expected = n == 1 or any(trunk_ok(er, t) for t in range(n))
     ntr = sum(1 for t in range(n) if trunk_ok(er, t))
@@ -256,13 +276,17 @@ def stog_s(draw):
     if mode == "netlist" and draw(st.booleans()):
         via = draw(st.sampled_from(["module", "netlist"]))
         if draw(st.booleans()):
-            edit = ["move", draw(_i(0, 8)), draw(_i(-2, 2)), draw(_i(-2, 2)), via]
+            edit = ["move", draw(_i(0, 8)), draw(_i(-2, 2)), draw(_i(-2, 2)), draw(st.sampled_from(["setter", "inplace"])), via]
         else:
             edit = ["append", draw(L.int_rect(30, 30, 5, 5)), via]
-    return dict(unit=unit, rects=[list(r) for r in rects], mode=mode, mut=mut, pre=pre, edit=edit)
+    others = None
+    if mode == "netlist":
+        kinds = ["soft-rect", "soft-area", "soft-centre", "terminal", "hard"]
+        others = [[draw(st.sampled_from(kinds)) for _ in range(draw(_i(0, 2)))], [draw(st.sampled_from(kinds)) for _ in range(draw(_i(0, 2)))]]
+    return dict(unit=unit, rects=[list(r) for r in rects], mode=mode, mut=mut, pre=pre, edit=edit, others=others)
 
 
 def subchecks():
-    return [Sub("lists", run_stog, strategy=stog_s(), n_quick=40000, n_thorough=1000000,
+    return [Sub("lists", run_stog, strategy=stog_s(), n_quick=40000, n_thorough=1000000, fuzz_thorough=20000,
                 required=("stog", "not-stog", "several-trunks", "mut-gap", "mut-overhang", "mut-overlap", "mut-dup-trunk",
-                          "mut-dup-branch", "mut-extra", "direct", "netlist", "duplicates", "edited-then-recognised-again", "far-from-origin"))]
+                          "mut-dup-branch", "mut-extra", "direct", "netlist", "duplicates", "edited-then-recognised-again", "moved-through-the-point-object", "module-without-rectangles-listed-before", "far-from-origin"))]
